@@ -392,6 +392,9 @@ class HObject:
 
     def copy(self):
         o = HObject(self.cls, self.fields, {k: AttrEntry(e.kind, e.val, e.dom) for k, e in self.attrs.items()})
+        for k, v in self.__dict__.items():
+            if k not in ("cls", "fields", "attrs", "written"):
+                setattr(o, k, dict(v) if isinstance(v, dict) else v)
         o.written = set(self.written)
         return o
 
